@@ -21,7 +21,7 @@ RULE = ("trees of lower-case .cmake files at depth 0..4 whose contents are gener
         "<name>' both equal <name>, the doccomment body is the module directive's content and none of it appears in the "
         "following command's entry. Non-trivial: depth>=2 or separator != '.' or lone-file input or '@module' directly "
         "followed by a command; distinct by SHA-1 of the case")
-RULE_MORE = "input directory names with dots, a leading dot or blanks (the default prefix); '@module' names ending in '.cmake'."
+RULE_MORE = "input directory names with dots, a leading dot or blanks (the default prefix); '@module' names ending in '.cmake'. Later: prior run under another prefix; dir-link mode; backslash and blank-ended names; braces in prefix / separator; whitespace variants around '@module'."
 ASSUMPTIONS = ["file names end in lower-case .cmake", "how inner path components are joined is not constrained, only their order"]
 BUDGET = {"quick": {"shards": 8, "examples": 100}, "thorough": {"shards": 16, "examples": 1500}}
 
